@@ -116,6 +116,25 @@ fn main() {
         println!("{}", set.len());
         return;
     }
+    if args[1] == "file" {
+        // vcheck file <C01|C04> <path>: judge the bytes of one file
+        let bytes = std::fs::read(&args[3]).expect("readable file");
+        ctx::install_panic_hook();
+        let mut ctx = Ctx::new(Tier::Quick, 0);
+        ctx.replay = true;
+        ctx.cur_workload = "file".into();
+        match args[2].as_str() {
+            "C01" => c01::C01::new().judge(&mut ctx, &bytes, true),
+            _ => c04::C04::new().exercise(&mut ctx, &bytes),
+        }
+        for v in &ctx.violations {
+            println!("REPLAY-VIOLATION sig={} {}", v.sig, v.detail);
+        }
+        if ctx.violations.is_empty() {
+            println!("REPLAY-OK no violation on this input");
+        }
+        std::process::exit(if ctx.violations.is_empty() { 0 } else { 1 });
+    }
     if args[1] == "macrogen" {
         // vcheck macrogen <seed> <n_programs> <docs_per_program> <outdir>: write the C19 programs
         let seed: u64 = args[2].parse().unwrap();
@@ -207,6 +226,8 @@ fn main() {
             let out = std::path::PathBuf::from(arg_after(&args, "--out").expect("--out DIR"));
             let only = arg_after(&args, "--only");
             let frac: u64 = arg_after(&args, "--frac").and_then(|s| s.parse().ok()).unwrap_or(1);
+            // at most this many cases per workload in this shard (slow interpreters)
+            let limit: u64 = arg_after(&args, "--limit").and_then(|s| s.parse().ok()).unwrap_or(u64::MAX);
             std::fs::create_dir_all(&out).unwrap();
             let progress = std::fs::File::create(out.join(format!("shard-{si}.progress"))).unwrap();
             let wls = check.workloads(tier, seed);
@@ -220,9 +241,13 @@ fn main() {
                 // sub-sampling (slow builds): every `frac`-th case of this shard, never fewer than all
                 // cases of small workloads
                 let step = if n < 5000 { sn } else { sn * frac };
-                while idx < n {
-                    let line = format!("{wl} {idx}\n{:40}", "");
-                    let _ = progress.write_at(&line.as_bytes()[..line.len().min(64)], 0);
+                let mut done = 0u64;
+                while idx < n && done < limit {
+                    done += 1;
+                    if !cfg!(miri) {
+                        let line = format!("{wl} {idx}\n{:40}", "");
+                        let _ = progress.write_at(&line.as_bytes()[..line.len().min(64)], 0);
+                    }
                     run_case(check.as_mut(), &mut ctx, &wl, idx);
                     idx += step;
                 }
